@@ -416,4 +416,68 @@ theorem seekFind_none (m : CMod) (q t : Int) (n : Nat) (h : seekFind m q t n = n
       · subst hjk; exact hc
       · exact ih h j (by omega)
 
+/-! ### xmp_start_player -/
+
+/-- fuel sufficiency of the start-up skip loop: `k` pattern-less orders, then one that stops it. -/
+theorem startSkip_run (m : CMod) (k : Nat) : ∀ (n : Nat) (ord : Int),
+    (∀ j, ord ≤ j → j < ord + k → j < m.len ∧ m.xxoAt j ≥ m.pat) →
+    ¬(ord + k < m.len ∧ m.xxoAt (ord + k) ≥ m.pat) → k ≤ n → startSkip m n ord = ord + k := by
+  induction k with
+  | zero =>
+    intro n ord _ hstop _
+    cases n with
+    | zero => simp [startSkip]
+    | succ n =>
+      have : ¬(ord < m.len ∧ m.xxoAt ord ≥ m.pat) := by simpa using hstop
+      simp [startSkip, this]
+  | succ k ih =>
+    intro n ord hsk hstop hn
+    cases n with
+    | zero => omega
+    | succ n =>
+      have h0 := hsk ord (by omega) (by omega)
+      unfold startSkip
+      rw [if_pos h0, ih n (ord + 1) (fun j h1 h2 => hsk j (by omega) (by omega))
+        (by have e : ord + 1 + (k : Int) = ord + ((k + 1 : Nat) : Int) := by omega
+            rw [e]; exact hstop) (by omega)]
+      omega
+
+/-- the start-up loop really ends within its fuel. -/
+theorem startSkip_exit (m : CMod) (n : Nat) (ord : Int) (h : (m.len - ord).toNat ≤ n) :
+    ¬ (startSkip m n ord < m.len ∧ m.xxoAt (startSkip m n ord) ≥ m.pat) := by
+  induction n generalizing ord with
+  | zero =>
+    simp only [startSkip]
+    intro ⟨h1, _⟩
+    omega
+  | succ k ih =>
+    unfold startSkip
+    split
+    · apply ih; omega
+    · assumption
+
+/-- the sequencing state after `xmp_start_player` when `t` is the first order with a pattern
+(`frame` is -1 after the call, 0 in the first frame). -/
+def startedAt (m : CMod) (s : St) (t frame : Int) : St :=
+  let o := m.infoAt t
+  { s with playing := true, pos := 0, ord := t, frame := frame, row := 0, loopCount := 0, sequence := 0,
+           speed := (if o.speed ≠ 0 then o.speed else s.speed), bpm := o.bpm, gvol := o.gvl,
+           time := o.time, st26 := o.st26,
+           f := resetFlow { s.f with numRows := m.rowsOf (m.xxoAt t), endPoint := (m.seqAt 0).scanNum } }
+
+def started (m : CMod) (s : St) (t : Int) : St := startedAt m s t (-1)
+
+theorem xmpStartPlayer_eq (m : CMod) (s : St) (t : Int) (k : Nat) (hv : Valid m t) (hk : t = k)
+    (hsk : ∀ j, 0 ≤ j → j < t → Skippable m j) : xmpStartPlayer m s = started m s t := by
+  obtain ⟨hp0, hpl, hpat, _⟩ := hv
+  have hrun : startSkip m (skipFuel m) 0 = t := by
+    have := startSkip_run m k (skipFuel m) 0
+      (fun j h1 h2 => ⟨(hsk j h1 (by omega)).1, (hsk j h1 (by omega)).2.1⟩)
+      (by rw [Int.zero_add, ← hk]; intro ⟨_, h⟩; omega) (by simp only [skipFuel]; omega)
+    omega
+  have h1 : ¬(t ≥ m.len ∨ m.len = 0) := by omega
+  unfold xmpStartPlayer
+  simp only [hrun, h1, if_false]
+  simp [started, startedAt, updateFromOrdInfo]
+
 end Xmp.Control
